@@ -195,7 +195,7 @@ def systemOps : List (String × (Json → R Json)) := [
       ("marker", jbool s.marker),
       ("processed", jarr (s.processed.map jrow)),
       ("batches", jarr (s.batches.map fun b => jobj [("bid", jnat b.bid), ("jobs", jnats b.jobs), ("hid", jopt jnat b.hid)])),
-      ("starts", jnats s.starts),
+      ("starts", jnats (s.starts.map (·.1))),
       ("lateSbatch", jbool s.lateSbatch),
       ("completions", jnat s.completions),
       ("procAt", jstr (match rej with | some i => (match (evs.toList.getD i Json.null).getObjVal? "p" with
